@@ -141,6 +141,12 @@ def handle (j : Json) : Except String Json := do
       ("rx", rxOut),
       ("sv", semverOut (if bad then none else cl.valueAsSemVer n)),
       ("t", optTimeOut (if bad then none else cl.valueAsTimestamp n))])]
+  else if kind == "keyaccessor" then
+    -- TargetFindKey / SegmentTargetFindKey / SegmentFindKeyInIncluded / …InExcluded with any probe key
+    if boolD j "nil" then return Json.mkObj [("out", Json.mkObj [("found", false)])]
+    let vals ← strList j "vals"
+    let pm ← optStrList j "pm"
+    return Json.mkObj [("out", Json.mkObj [("found", LD.findKey (strD j "probe") vals pm)])]
   else if kind == "preflag" then
     let f ← flag (← fld j "flag")
     return Json.mkObj [("out", flagOut (preprocessFlag rx f))]
